@@ -193,7 +193,31 @@ def teardrop(rng, how):
     return els
 
 
+def tiny_first_piece(rng):
+    """a contour one of whose curves leaves (or reaches) a vertex almost vertically with a tiny lean the wrong way: its x- (or y-) extremum lies within
+    1e-12 .. 1e-7 of t = 0 (or t = 1), so one of the monotone pieces is extremely short; rows through that vertex must still be counted once"""
+    e = 2.0 ** -rng.choice([50, 40, 30, 24])
+    w, h = rng.uniform(1, 4), rng.uniform(1, 4)
+    lean = rng.choice([-e, e])
+    kind = rng.choice(['Q', 'C'])
+    if kind == 'Q':
+        curve = ('Q', (lean, h / 2), (w / 3, h))
+    else:
+        curve = ('C', (lean, h / 3), (w / 4, 2 * h / 3), (w / 3, h))
+    els = [('M', (0.0, 0.0)), curve, ('L', (w, h)), ('L', (w, -h)), ('L', (0.0, -h)), ('Z',)]
+    if rng.random() < 0.5:      # the same, mirrored in y and traversed the other way: the short piece is then the LAST one of the curve
+        els = [('M', (w / 3, -h)), (('Q', (lean, -h / 2), (0.0, 0.0)) if kind == 'Q' else ('C', (w / 4, -2 * h / 3), (lean, -h / 3), (0.0, 0.0))),
+               ('L', (0.0, h)), ('L', (w, h)), ('L', (w, -h)), ('Z',)]
+    ox, oy = rng.choice([(0.0, 0.0), (rng.randint(-8, 8) / 4.0, rng.randint(-8, 8) / 4.0)])
+    els = [(el[0],) + tuple((p[0] + ox, p[1] + oy) for p in el[1:]) for el in els]
+    return els, (ox, oy), w
+
+
 def generate(rng, tier):
+    for _ in range(40 if tier == 'quick' else 1500):
+        els, v, w = tiny_first_piece(rng)
+        for q in ((v[0] + rng.uniform(0.2, 0.9) * w, v[1]), (v[0] - rng.uniform(0.2, 2.0), v[1]), (v[0] + rng.uniform(0.2, 0.9) * w, v[1] + rng.choice([-1e-3, 1e-3]))):
+            yield winding_case(els, list(q), 'curve', 'tiny-monotone-piece')
     n = 60 if tier == 'quick' else 4000
     for _ in range(n):
         # closed-loop segments (end point == start point): a single segment that encloses area
